@@ -87,7 +87,12 @@ fn check_e1103_time_window_correctness(ctx: &ValidationContext) -> Result<(), Fo
 
     let ids = ctx
         .jobs()
-        .filter(|job| has_invalid_tws(&job.pickups) || has_invalid_tws(&job.deliveries))
+        .filter(|job| {
+            has_invalid_tws(&job.pickups)
+                || has_invalid_tws(&job.deliveries)
+                || has_invalid_tws(&job.replacements)
+                || has_invalid_tws(&job.services)
+        })
         .map(|job| job.id.clone())
         .collect::<Vec<_>>();
 
